@@ -43,6 +43,7 @@ func main() {
 
 	h.coderCases(r.Fork(), f.N(400, 10000))
 	h.checkCases(r.Fork(), f.N(150, 3000))
+	h.checkSeqCases(r.Fork(), f.N(80, 2000))
 	h.pbCases(r.Fork(), f.N(150, 2000))
 	h.shardCases(r.Fork(), f.N(120, 1500))
 	h.bigShardCases(r.Fork(), f.N(8, 60))
